@@ -5,7 +5,7 @@
    returns decodes to the set (C12_explicit), and the listed unrepresentable inputs are Err (the C12_rejects theorems).
    The composition over the whole API is checked per run: every file the implementation returns for a malformed
    specification is decoded by the strict reader and compared with the specification (harness/props/c12.py). *)
-From DV Require Import Model.ApiDispatch Model.EflrReader Proofs.SegmentP Proofs.EflrP Proofs.PrimP Proofs.BuilderP.
+From DV Require Import Model.ApiDispatch Model.EflrReader Proofs.SegmentP Proofs.EflrP Proofs.PrimP Proofs.BuilderP Proofs.RegP Proofs.KeepP Proofs.ContentP.
 From DV Require Import Model.ApiDispatch Model.FileReader Proofs.FileP.
 
 Theorem C12_physical : forall c recs bs,
@@ -62,9 +62,30 @@ Theorem C12_api_returned_file_is_well_formed : forall l ps hc w st' bs,
   Layout cfg bs /\ exists lrds, read_logical cfg bs = Some lrds.
 Proof. intros l ps hc w st' bs st H cfg. exact (every_written_file_is_readable l ps hc w st' bs H). Qed.
 
+(* ... and the file is FAITHFUL to the specification: it is one group of records per logical file, each set's record decoding
+   to that set as it stands in the state the write leaves, which differs from the state the write found only by write-time
+   defaults where nothing had been given (Proofs/ContentP.v, Proofs/KeepP.v; statement explained in Props/C05.v). Hypothesis:
+   no set registered for two logical files (known finding D12 is exactly the excluded case). *)
+Theorem C12_api_returned_file_is_faithful : forall l ps hc w st' bs,
+  let st := snd (run_actions ps b_init l) in
+  write hc st w = (st', OK bs) ->
+  NoDup (concat (map lf_sids (b_lfs st))) ->
+  exists groups,
+    write_file {| sul_seq := w_seq w; sul_vrl := w_vrl w; sul_id := w_ident w |} (concat groups) = OK bs
+    /\ Forall2 (lf_group st') (map lf_sids (b_lfs st)) groups
+    /\ skeeps st st'.
+Proof.
+  intros l ps hc w st' bs st H Hnd.
+  assert (Hi : Inv st) by (apply reachable_inv_actions; split; [apply WriteP.inv_shape_init | apply StructP.inv_struct_init]).
+  assert (Hr : Inv_reg st) by (apply reachable_inv_reg_actions; [split; [apply WriteP.inv_shape_init | apply StructP.inv_struct_init] | apply inv_reg_init]).
+  assert (Hd : Inv_disj st) by (apply reachable_inv_disj_actions; [split; [apply WriteP.inv_shape_init | apply StructP.inv_struct_init] | apply inv_reg_init | apply inv_disj_init]).
+  exact (write_content hc st w st' bs H Hi Hr Hd Hnd).
+Qed.
+
 Print Assumptions C12_physical.
 Print Assumptions C12_explicit.
 Print Assumptions C12_rejects_ident.
 Print Assumptions C12_rejects_incomplete.
 Print Assumptions C12_rejects_bad_data.
 Print Assumptions C12_api_returned_file_is_well_formed.
+Print Assumptions C12_api_returned_file_is_faithful.
